@@ -7,8 +7,8 @@ open SamVerif.C03
 #print axioms trip_total
 #print axioms merge_total_counterexample
 #print axioms merge_total_partial
-#print axioms ts_literal_closed_counterexample
-#print axioms ts_literal_closed_partial
+#print axioms ts_literal_closed
+#print axioms ts_literal_closed_isSome
 #print axioms lower_correct
 #print axioms lowering_total
 #print axioms abstract_typed
